@@ -25,7 +25,7 @@ Record mst := {
 }.
 
 Definition setpc (s : st) (p : cpc) (td : list call) : st :=
-  {| todo := td; pc := p; hp := hp s; srv := srv s; pst := pst s; busy := busy s; usecb := usecb s;
+  {| cfg := cfg s; todo := td; pc := p; hp := hp s; srv := srv s; pst := pst s; busy := busy s; usecb := usecb s;
      watch := watch s; stopped := stopped s; wire := wire s; cblog := cblog s; rets := [];
      got := got s; cbbase := cbbase s |}.
 Definition view (t : thread) (s : st) : st := setpc s (tpc t) (ttodo t).
@@ -76,7 +76,7 @@ End Variant.
 
 Definition minit (progs : list (list call)) (script : list smsg) : mst :=
   {| ths := map (fun p => {| ttodo := p; tpc := CIdle; tgot := [] |}) progs;
-     sh := strip (init [] script); mrets := []; owner := None |}.
+     sh := strip (init cfg_all [] script);  (* the N-caller development fixes the configuration with all callbacks *) mrets := []; owner := None |}.
 
 Definition tpending (t : thread) : bool := match tpc t, ttodo t with CIdle, [] => false | _, _ => true end.
 
